@@ -236,8 +236,11 @@ def r02_3_hoisted_projection(ctx: Ctx, rule: str = "R02.3") -> None:
         decide = [st for st in p.steps[idx:] if st.kind == "cond" and set(needs) <= names_read(st.node)]
         if not decide:
             raise AnalysisError("the Join arm no longer decides the hoisted projection on both strip() results together")
-        any_needed = bool(decide[-1].value)
-        none_needed = not any_needed
+        from ..facts import step_facts
+
+        dfacts = step_facts(decide[-1])
+        none_needed = all(any(fct.kind == "TRUTH" and fct.args == (n,) and not fct.polarity for fct in dfacts) for n in needs)
+        any_needed = not none_needed
         if any_needed and not none_needed:
             inst = "join:projection-hoisted"
             ok = isinstance(b, ast.Call) and (dotted(b.func) or "").split(".")[-1] == "Projection" and b.args
